@@ -330,6 +330,44 @@ func c13EvalInner(cs c13Case) (string, string) {
 			return fmt.Sprintf("C13/B-field-after-group-lost mode=%d group=%s", cs.Mode, nested), fmt.Sprintf("body field %s=%s after the group is not found in the body (%q, %v) | %s", f[0], f[1], v, err, ctx)
 		}
 	}
+	// second trip (dictionary modes): the message that was received is enriched — the group it carries is written again,
+	// one entry longer — and sent on; the next reader finds the longer group and the fields behind it
+	if cs.Mode != 0 && len(cs.Entries) > 0 && !cs.Shared && !cs.Wrapped {
+		longer := append(append(cs.Entries[:0:0], cs.Entries...), cs.Entries[0])
+		parsed.Body.SetGroup(cs.Group.write(longer, false))
+		wire2 := append([]byte{}, quickfix.VerifBuild(parsed)...)
+		ctx2 := fmt.Sprintf("%s/%s group %d mode %d, received as %s, group rewritten one entry longer and built again: %s", cs.Dict, cs.MsgType, cs.Group.Tag, cs.Mode, fixscan.Pretty(wire), fixscan.Pretty(wire2))
+		if sm, err := fixscan.Scan(wire2); err != nil {
+			return "C13/W2-unscannable", err.Error() + " | " + ctx2
+		} else if fr := sm.CheckFraming(); fr != "" {
+			return "C13/W2-framing", fr + " | " + ctx2
+		}
+		again := quickfix.NewMessage()
+		switch cs.Mode {
+		case 1:
+			err = quickfix.ParseMessageWithDataDictionary(again, bytes.NewBuffer(wire2), nil, c13Dicts[cs.Dict])
+		case 2:
+			err = quickfix.ParseMessageWithDataDictionary(again, bytes.NewBuffer(wire2), c13Dicts["FIXT11"], c13Dicts[cs.Dict])
+		case 3:
+			err = quickfix.ParseMessageWithDataDictionary(again, bytes.NewBuffer(wire2), c13Dicts[cs.Dict], c13Dicts[cs.Dict])
+		}
+		if err != nil {
+			return "C13/P2-parse-error", fmt.Sprintf("%v | %s", err, ctx2)
+		}
+		rg2 := quickfix.NewRepeatingGroup(quickfix.Tag(cs.Group.Tag), cs.Group.template())
+		if err := again.Body.GetGroup(rg2); err != nil {
+			return "C13/R2-group-unreadable", fmt.Sprintf("%v | %s", err, ctx2)
+		}
+		if r, w := cs.Group.compare(strconv.Itoa(cs.Group.Tag), rg2, longer); r != "" {
+			return strings.Replace(r, "C13/", "C13/second-trip-", 1), w + " | " + ctx2
+		}
+		for _, f := range append(append([][2]string{}, cs.Before...), cs.After...) {
+			t, _ := strconv.Atoi(f[0])
+			if v, err := again.Body.GetString(quickfix.Tag(t)); err != nil || v != f[1] {
+				return fmt.Sprintf("C13/B2-field-lost-on-second-trip mode=%d", cs.Mode), fmt.Sprintf("body field %s=%s is not found in the body (%q, %v) | %s", f[0], f[1], v, err, ctx2)
+			}
+		}
+	}
 	return "", ""
 }
 
